@@ -17,7 +17,7 @@ from ..util import (
 )
 from ..rfc7515.compact import decode_header
 from ..errors import BadSignatureError
-from .registry import JWSRegistry, construct_registry
+from .registry import JWSRegistry, construct_registry, check_b64_header
 
 
 def serialize_compact(
@@ -31,6 +31,7 @@ def serialize_compact(
         return _serialize_compact(protected, payload, private_key, algorithms, registry)
 
     registry = construct_registry(algorithms, registry)
+    check_b64_header(protected)
 
     if protected["b64"] is True:
         return _serialize_compact(protected, payload, private_key, registry=registry)
@@ -108,6 +109,7 @@ def _extract_compact(value: bytes, payload: t.Optional[bytes | str] = None) -> t
     if "b64" not in protected:
         return None
 
+    check_b64_header(protected)
     if protected["b64"] is True:
         return True
 
